@@ -41,6 +41,31 @@ extern "C" void vf_ctx_ctor(F8MetaCntx *c, unsigned version, const MsgTable *bme
 #endif
 
 extern "C" {
+// ---- std::function<Message *(bool)>::operator() (Minst::_do, F8MetaCntx::_mk_hdr/_mk_trl) is bound to a harness function that identifies the
+// std::function OBJECT (table slot / context member), checks that the function pointer stored in it is the instantiator of that slot and
+// calls that instantiator directly: std::function keeps its target in a byte buffer, which the symbolic executor cannot follow as a constant.
+using mk_fn = Message *(*)(bool);
+static mk_fn l3_maker(int w)
+{
+   switch (w) { case 0: return &Minst::_gen::_make<MINI::Heartbeat>; case 1: return &Minst::_gen::_make<MINI::Order>;
+                case 2: return &Minst::_gen::_make<MINI::header, bool>; case 3: return &Minst::_gen::_make<MINI::trailer, bool>; }
+   return nullptr;
+}
+int vf_fn_which(const msg_create *f)
+{
+   const F8MetaCntx& c(MINI::ctx());
+   if (f == &c._mk_hdr) return 2;
+   if (f == &c._mk_trl) return 3;
+   for (unsigned i = 0; i < c._bme.size(); ++i) if (f == &c._bme.at(i)->_value._create._do) return int(i);
+   return -1;
+}
+bool vf_fn_check(const msg_create *f, int w) { return *reinterpret_cast<const mk_fn *>(&f->_M_functor) == l3_maker(w); }
+Message *vf_fn_make(int w, bool deep)
+{
+   switch (w) { case 0: return Minst::_gen::_make<MINI::Heartbeat>(deep); case 1: return Minst::_gen::_make<MINI::Order>(deep);
+                case 2: return Minst::_gen::_make<MINI::header, bool>(deep); case 3: return Minst::_gen::_make<MINI::trailer, bool>(deep); }
+   return nullptr;
+}
 // ---- construction through the public API
 Message *vf_new_msg(int which, bool deep) { return which == 0 ? static_cast<Message *>(new MINI::Heartbeat(deep)) : static_cast<Message *>(new MINI::Order(deep)); }
 MessageBase *vf_header(Message *m) { return m->Header(); }
